@@ -28,7 +28,7 @@ type c20Case struct {
 	Wrapper   string `json:"wrapper"`
 	Behaviour string `json:"behaviour"` // ok status early late never drop
 	Status    int    `json:"status,omitempty"`
-	Nth       int    `json:"nth,omitempty"` // which matching request gets the behaviour (1-based; 0 = every)
+	Nth       int    `json:"nth,omitempty"`    // which matching request gets the behaviour (1-based; 0 = every)
 	Exists    bool   `json:"exists,omitempty"` // target document exists beforehand
 }
 
